@@ -190,7 +190,7 @@ func (i KIndex) encodeN() Opcode {
 // of range.
 func KIndexFromInt(i int) KIndex {
 	if i < 0 || i > math.MaxUint16 {
-		panic("constant index out of range")
+		panic(&LimitError{Msg: "too many constants"})
 	}
 	return KIndex(i)
 }
